@@ -16,9 +16,13 @@ def find_module(ast, name):
     raise Unsupported("module %s not found in expansion" % name)
 
 
-def column_domain(ty, D):
+def column_domain(ty, D, prog=None):
     """candidate values of an input column of Rust type `ty`"""
     ty = ty.replace(" ", "")
+    if prog is not None and getattr(prog, "type_params", None):
+        ty = prog.type_params.get(ty, ty)
+    if prog is not None and getattr(prog, "domain", None) and ty in ("u8", "u16", "u32", "u64", "usize", "i8", "i16", "i32", "i64", "isize"):
+        return list(prog.domain)[:D]
     ints = ("u8", "u16", "u32", "u64", "usize", "i8", "i16", "i32", "i64", "isize")
     if ty in ints:
         return list(range(D))
@@ -50,7 +54,7 @@ class Inputs:
         self.rels = input_rels
         for rn in input_rels:
             r = prog.relmap[rn]
-            doms = [column_domain(t, D) for t in r.types]
+            doms = [column_domain(t, D, prog) for t in r.types]
             if r.lattice:
                 for key in itertools.product(*doms[:-1]):
                     base = "in%s_%s_%s" % (tag, rn, rust_repr(tuple(key)))
@@ -162,10 +166,20 @@ class Exec:
                 for f in it["items"]:
                     if f["k"] == "fn":
                         self.ctx.methods[(sname, f["sig"]["name"])] = f
-        if struct_name not in self.ctx.structs:
+        self.ctx.lattice_rels = {rn for rn, r in prog.relmap.items() if r.lattice}
+        self.run_fn = None
+        for it in ast_mod["items"]:
+            if it["k"] == "fn" and it["sig"]["name"] == "run_prog":
+                self.run_fn = it
+        if struct_name not in self.ctx.structs and self.run_fn is None:
             raise Unsupported("struct %s not found in expansion" % struct_name)
 
     def default(self):
+        if self.run_fn is not None:
+            # ascent_run!: the program value is created inside the block; inputs are the captured locals
+            rels = [rn for rn, r in self.prog.relmap.items() if not r.ds]
+            self.obj = Struct("captured", {rn: (LatVec(rn) if self.prog.relmap[rn].lattice else RelVec(rn)) for rn in rels})
+            return self.obj
         fn = self.ctx.methods.get((self.struct_name, "default"))
         if fn is None:
             raise Unsupported("no Default impl")
@@ -175,7 +189,9 @@ class Exec:
         for rn, r in self.prog.relmap.items():
             if r.ds:
                 continue
-            obj.fields[rn] = LatVec(rn) if r.lattice else RelVec(rn)
+            want = LatVec if r.lattice else RelVec
+            if not isinstance(obj.fields.get(rn), want):
+                obj.fields[rn] = want(rn)   # (initialised relations keep what the generated Default put there)
             self.ctx.vecs.append(obj.fields[rn])
         self.obj = obj
         return obj
@@ -186,6 +202,14 @@ class Exec:
         self.ctx.compact([v for v in self.obj.fields.values() if hasattr(v, "compact")])
 
     def run(self):
+        if self.run_fn is not None:
+            params = [p for p in self.run_fn["sig"]["params"] if p["k"] == "param"]
+            args = [self.obj.fields[p["pat"]["id"][:-3]] for p in params]   # parameter `<rel>_in`
+            alts = self.I.call_user_fn(self.run_fn, args, True)
+            res = deref(alts[0][1])
+            rels = [rn for rn, r in self.prog.relmap.items() if not r.ds]
+            self.obj = Struct("result", dict(zip(rels, res)))
+            return
         self.prune()
         self.I.call_method(self.obj, "run", [], True, Frame(), None)
 
